@@ -29,8 +29,51 @@ def norm_desc(d):
     return d
 
 
+def encode_any(I, v):
+    """structural encoding without a descriptor (keys of arbitrary shape)"""
+    if v is None:
+        return Val.none
+    if isinstance(v, bool):
+        return Val.bool(z3.BoolVal(v))
+    if isinstance(v, SBool):
+        return Val.bool(v.t)
+    if isinstance(v, (int, SInt, EnumV)):
+        return Val.int(zint(int_term(v)))
+    if isinstance(v, Opaque):
+        return Val.obj(v.t)
+    if isinstance(v, tuple):
+        t = Val.nil
+        for x in reversed(v):
+            t = Val.cons(encode_any(I, x), t)
+        return t
+    raise OutsideSubset(f"value {v!r} cannot be a key of a symbolic map")
+
+
+def model_any(model, v):
+    ev = lambda x: model.eval(x, model_completion=True)
+    v = ev(v)
+    if z3.is_true(ev(Val.is_none(v))):
+        return None
+    if z3.is_true(ev(Val.is_int(v))):
+        return ev(Val.i(v)).as_long()
+    if z3.is_true(ev(Val.is_bool(v))):
+        return bool(z3.is_true(ev(Val.b(v))))
+    if z3.is_true(ev(Val.is_obj(v))):
+        return str(ev(Val.o(v)))
+    out = []
+    cur = v
+    n = 0
+    while z3.is_true(ev(Val.is_cons(cur))) and n < 64:
+        out.append(model_any(model, ev(Val.hd(cur))))
+        cur = ev(Val.tl(cur))
+        n += 1
+    return out
+
+
 def encode(I, d, v):
     """interpreter value -> Val term (raises OutsideSubset if v does not fit d)"""
+    if d == "any":
+        return encode_any(I, v)
     if d == "int":
         return Val.int(zint(int_term(v)))
     if d == "bool":
@@ -71,6 +114,8 @@ def encode(I, d, v):
 
 def wellformed(d, t):
     """z3 Bool: term t has the shape of descriptor d"""
+    if d == "any":
+        return z3.BoolVal(True)
     if d == "int":
         return Val.is_int(t)
     if d == "bool":
@@ -142,6 +187,8 @@ def model_value(model, d, t):
 
 def _model_value(model, d, v):
     ev = lambda x: model.eval(x, model_completion=True)
+    if d == "any":
+        return model_any(model, v)
     if d == "int":
         return ev(Val.i(v)).as_long()
     if d == "bool":
